@@ -7,9 +7,12 @@ from rsx import RustSrc, AnchorLost
 KDIR = os.path.join(os.path.dirname(os.path.abspath(__file__)), '..', 'contracts', 'kani')
 
 class Harness:
-    def __init__(self, name, bounded=None, timeout=900, expect_cover=True, desc='', domain=''):
+    def __init__(self, name, bounded=None, timeout=900, expect_cover=True, desc='', domain='', miri=None):
+        """miri: optional (crate, rust_expr) — a public-API call reproducing the harness input, with the
+        concrete values available as v0, v1, ... (u32 bit patterns / raw little-endian integers);
+        used to replay UB-class counterexamples on the real code under Miri."""
         self.name = name; self.bounded = bounded; self.timeout = timeout
-        self.desc = desc; self.domain = domain
+        self.desc = desc; self.domain = domain; self.miri = miri
 
 class HarnessResult:
     def __init__(self, name):
@@ -34,7 +37,10 @@ def inject_module(scratch, rel_file, harness_file, modname):
     p = os.path.join(scratch, rel_file)
     if not os.path.exists(p):
         raise AnchorLost(f'{rel_file} not found')
-    hp = os.path.abspath(os.path.join(KDIR, harness_file))
+    # the harness file is COPIED next to the module (never referenced in /verif: playback writes into it)
+    hd = os.path.join(scratch, '_verif_harness'); os.makedirs(hd, exist_ok=True)
+    hp = os.path.join(hd, harness_file)
+    shutil.copy(os.path.abspath(os.path.join(KDIR, harness_file)), hp)
     with open(p, 'a') as f:
         f.write(f'\n#[cfg(kani)]\n#[path = "{hp}"]\nmod {modname};\n')
 
@@ -96,22 +102,36 @@ def parse_terse(out, names):
         res[h] = r
     return res
 
-def run_kani(scratch, crate_dir, harnesses, jobs=8, timeout=3600, extra=()):
-    """harnesses: list of Harness (names are matched as suffixes).  One cargo-kani invocation."""
+def _run_group(scratch, crate_dir, harnesses, jobs, timeout, extra, harness_timeout=None):
     cwd = os.path.join(scratch, crate_dir)
     cmd = ['cargo', 'kani', '-Z', 'function-contracts', '-Z', 'stubbing', '--output-format=terse', '-j', str(jobs)]
+    if harness_timeout:
+        cmd += ['-Z', 'unstable-options', '--harness-timeout', f'{int(harness_timeout)}s']
     for h in harnesses:
         cmd += ['--harness', h.name]
     cmd += list(extra)
     env = dict(os.environ, CARGO_NET_OFFLINE='true', CARGO_TARGET_DIR=os.path.join(scratch, 'target-kani'))
-    t0 = time.time()
     try:
         p = subprocess.run(['timeout', str(timeout)] + cmd, cwd=cwd, env=env, capture_output=True, text=True)
         out = p.stdout + '\n' + p.stderr
     except Exception as e:
         out = f'exception {e}'
+    return ' '.join(cmd), out
+
+def run_kani(scratch, crate_dir, harnesses, jobs=8, timeout=3600, extra=()):
+    """harnesses: list of Harness (names are matched as suffixes).  Proof harnesses run in one cargo-kani
+    invocation; bounded/optional harnesses run in a second one under a per-harness timeout."""
+    t0 = time.time()
+    main = [h for h in harnesses if not (h.bounded and h.bounded.startswith('optional'))]
+    opt = [h for h in harnesses if h.bounded and h.bounded.startswith('optional')]
+    cmds, outs, parsed = [], [], {}
+    for grp, ht in ((main, None), (opt, max([h.timeout for h in opt] or [0]))):
+        if not grp: continue
+        cmd, out = _run_group(scratch, crate_dir, grp, jobs, timeout, extra, ht)
+        cmds.append(cmd); outs.append(out)
+        parsed.update(parse_terse(out, [h.name for h in grp]))
     wall = time.time() - t0
-    parsed = parse_terse(out, [h.name for h in harnesses])
+    out = '\n'.join(outs)
     results = []
     for h in harnesses:
         hit = [r for n, r in parsed.items() if n == h.name or n.endswith('::' + h.name)]
@@ -121,29 +141,57 @@ def run_kani(scratch, crate_dir, harnesses, jobs=8, timeout=3600, extra=()):
             r = HarnessResult(h.name); r.status = 'undecided'
             r.reason = 'harness produced no result (build error or timeout): ' + out[-1500:]
             results.append(r)
-    return results, wall, ' '.join(cmd), out
+    return results, wall, ' ;; '.join(cmds), out
 
-def concrete_playback(scratch, crate_dir, harness, timeout=900):
-    """Re-run one failing harness with concrete playback; returns (values_text, native_replay_text)."""
+def concrete_playback(scratch, crate_dir, harness, harness_file, timeout=900):
+    """Re-run one failing harness with `--concrete-playback=print`, take the generated unit test of the
+    first non-cover failing check, append it to the scratch copy of the harness file and execute it natively
+    (`cargo kani playback`): the harness body then runs the REAL functions on the concrete input.
+    Returns (test_source, native_output, reproduced: bool|None)."""
     cwd = os.path.join(scratch, crate_dir)
     env = dict(os.environ, CARGO_NET_OFFLINE='true', CARGO_TARGET_DIR=os.path.join(scratch, 'target-kani'))
     cmd = ['timeout', str(timeout), 'cargo', 'kani', '-Z', 'function-contracts', '-Z', 'stubbing', '-Z', 'concrete-playback',
-           '--concrete-playback=inplace', '--harness', harness]
+           '--concrete-playback=print', '--harness', harness]
     p = subprocess.run(cmd, cwd=cwd, env=env, capture_output=True, text=True)
     out = p.stdout + p.stderr
-    # find the generated test
-    test_name, test_src = None, ''
-    for root, _, files in os.walk(os.path.join(scratch)):
-        if 'target' in root: continue
-        for f in files:
-            if f.endswith('.rs'):
-                t = open(os.path.join(root, f)).read()
-                m = re.search(r'(#\[test\]\s*fn (kani_concrete_playback_\w+)\(\) \{.*?\n\})', t, re.S)
-                if m:
-                    test_name, test_src = m.group(2), m.group(1)
-    native = ''
-    if test_name:
-        cmd2 = ['timeout', str(timeout), 'cargo', 'kani', 'playback', '-Z', 'concrete-playback', '--', test_name]
-        p2 = subprocess.run(cmd2, cwd=cwd, env=env, capture_output=True, text=True)
-        native = (p2.stdout + p2.stderr)[-3000:]
-    return test_src, native, out[-2000:]
+    tests = re.findall(r'```\n(/// Test generated for harness.*?)\n```', out, re.S)
+    tests = [t for t in tests if not re.search(r'Check for `cover`', t)]
+    if not tests:
+        return '', out[-1500:], None
+    test = tests[0]
+    name = re.search(r'fn (kani_concrete_playback_\w+)', test).group(1)
+    hp = os.path.join(scratch, '_verif_harness', harness_file)
+    with open(hp, 'a') as f:
+        f.write('\n' + test + '\n')
+    cmd2 = ['timeout', str(timeout), 'cargo', 'kani', 'playback', '-Z', 'concrete-playback', '--', name]
+    p2 = subprocess.run(cmd2, cwd=cwd, env=env, capture_output=True, text=True)
+    native = (p2.stdout + p2.stderr)[-3000:]
+    reproduced = None
+    if 'test result: FAILED' in native or 'panicked at' in native: reproduced = True
+    elif 'test result: ok' in native: reproduced = False
+    return test, native, reproduced
+
+def miri_replay(scratch, test_src, crate, expr, timeout=600):
+    """Run `expr` (public API of the scratch copy of the real crate) under Miri with the concrete values of
+    the Kani counterexample.  Returns (output, ub_detected)."""
+    vals = []
+    for m in re.finditer(r'vec!\[([\d, ]+)\]', test_src):
+        bs = [int(x) for x in m.group(1).split(',') if x.strip()]
+        vals.append(int.from_bytes(bytes(bs), 'little'))
+    d = os.path.join(scratch, '_verif_replay')
+    shutil.rmtree(d, ignore_errors=True); os.makedirs(os.path.join(d, 'src'))
+    dep = {'yuvxyb-math': 'yuvxyb-math = { path = "../yuvxyb-math" }', 'yuvxyb': 'yuvxyb = { path = ".." }'}[crate]
+    open(os.path.join(d, 'Cargo.toml'), 'w').write(
+        f'[package]\nname = "verif_replay"\nversion = "0.0.0"\nedition = "2021"\n[dependencies]\n{dep}\n[workspace]\n')
+    lets = ''.join(f'    let v{i}: u64 = {v};\n' for i, v in enumerate(vals))
+    open(os.path.join(d, 'src', 'main.rs'), 'w').write(
+        '#![allow(unused)]\nfn f(v: u64) -> f32 { f32::from_bits(v as u32) }\nfn main() {\n' + lets +
+        f'    let r = {expr};\n    println!("replay result: {{:?}}", r);\n}}\n')
+    lock = os.path.join(scratch, 'Cargo.lock')
+    if os.path.exists(lock) and crate == 'yuvxyb':
+        shutil.copy(lock, os.path.join(d, 'Cargo.lock'))
+    env = dict(os.environ, CARGO_NET_OFFLINE='true', CARGO_TARGET_DIR=os.path.join(scratch, 'target-miri'))
+    p = subprocess.run(['timeout', str(timeout), 'cargo', '+nightly', 'miri', 'run', '--offline'], cwd=d, env=env,
+                       capture_output=True, text=True)
+    out = (p.stdout + p.stderr)[-2500:]
+    return out, ('Undefined Behavior' in out)
